@@ -89,7 +89,7 @@ def boundary_candidates(alt, isa, address, size):
 
 @st.composite
 def _cases(draw, tier):
-    asz = draw(st.sampled_from([8, 12, 16, 16, 20, 24, 32]))
+    asz = draw(st.sampled_from([8, 12, 16, 16, 20, 24, 32, 56, 64]))
     top = (1 << asz) - 1
     general = {'address_size': asz, 'endian': draw(isagen.endians), 'registers': ['hl', 'a']}
     cfg = {'general': general}
@@ -110,6 +110,9 @@ def _cases(draw, tier):
         cfg['predefined'] = pre
     env = {'address_size': asz, 'zone_names': sorted(zones), 'zones': zones, 'keys': list(isagen.ENUM_KEYS)}
     kind = draw(st.sampled_from(KINDS))
+    wide = asz >= 56 and draw(st.booleans())
+    if wide:
+        kind = 'address'
     if kind == 'indexed_nbc':
         kind = draw(st.sampled_from(['indexed_register', 'indirect_indexed_register']))
         isz = draw(isagen.bits(1, 6))
@@ -122,6 +125,9 @@ def _cases(draw, tier):
                                               'bytecode': {'value': draw(isagen.unsigned_value(isz)), 'size': isz}}
     else:
         alt = draw(isagen.alternative(kind, ['hl', 'a'], env))
+    if wide and draw(st.integers(0, 3)) != 0:
+        # a page number of more than 53 bits: pages are compared exactly
+        alt['argument'].update({'size': draw(st.integers(2, asz - 54)), 'slice_lsb': True, 'match_address_msb': True})
     if kind == 'address' and 'ROM' in zones and draw(st.integers(0, 3)) != 0:
         alt['argument']['memory_zone'] = 'ROM'
     if kind == 'indirect_register':
@@ -216,11 +222,15 @@ def execute(case, ctx):
     zd = case.get('zone_decl')
     if zd:
         isa.zones['ROM'] = (zd[1], zd[2])
+        # the bounds in one of the notations, picked by the bounds themselves
+        from .. import exprs as _ex
+        nots = ['dec', 'hex$', 'hex0x', 'hexH', 'bin%']
+        decl = '#create_memzone ROM {} {}\n'.format(_ex.render_num(zd[1], nots[zd[2] % 5]), _ex.render_num(zd[2], nots[(zd[1] + zd[2] // 5) % 5]))
         if zd[0] == 'before':
-            src += f'#create_memzone ROM {zd[1]} ${zd[2]:x}\n'
+            src += decl
     src += f'.org {case["address"]}\n' + isagen.render_statement('tst', [case['op']]) + '\n'
     if zd and zd[0] == 'after':
-        src += f'#create_memzone ROM {zd[1]} ${zd[2]:x}\n'
+        src += decl
 
     def resolve(name):
         if name in consts:
